@@ -47,6 +47,18 @@ def cases(tier, seed):
     return out
 
 
+def _pick_seed(rng, k):
+    """seed catalogue: boundary values of the documented range (0 is a valid seed, not 'no seed'), numpy integer types, random"""
+    r = int(rng.integers(0, 6))
+    if r == 0:
+        return 0
+    if r == 1:
+        return np.int64(0) if k % 2 else np.int64(int(rng.integers(0, 10 ** 6)))
+    if r == 2:
+        return 2 ** 32 - 1
+    return int(rng.integers(0, 10 ** 6))
+
+
 # ------------------------------------------------------------------ child
 
 def child_setup(shard):
@@ -152,8 +164,8 @@ def _run_pos(case):
     tot = nx * ny
     worst = 0.0
     sizes = sorted(set([1, min(2, tot), int(rng.integers(1, tot + 1)), max(1, tot - 1), tot]))
-    for npx in sizes:
-        sd = int(rng.integers(0, 10 ** 6))
+    for isz, npx in enumerate(sizes):
+        sd = _pick_seed(rng, isz)
         sub, sel = make_subset_data(img, pixels=npx, return_selection=True, seed=sd)
         hs = _holo(sub, cfg, s, th)
         worst = max(worst, relmax(hs.values, G.ravel()[sel]))
@@ -184,8 +196,8 @@ def _run_subset(case):
     tot = nx * ny
     flags = {}
     seen_sel = []
-    for npx in sorted(set([1, tot, int(rng.integers(1, tot + 1)), int(rng.integers(1, tot + 1))])):
-        sd = int(rng.integers(0, 10 ** 6))
+    for isz, npx in enumerate(sorted(set([1, tot, int(rng.integers(1, tot + 1)), int(rng.integers(1, tot + 1))]))):
+        sd = _pick_seed(rng, isz)
         sub, sel = make_subset_data(im, pixels=npx, return_selection=True, seed=sd)
         sub2, sel2 = make_subset_data(im, pixels=npx, return_selection=True, seed=sd)
         flags["reproducible@%d" % npx] = bool(np.array_equal(sel, sel2) and digest(sub) == digest(sub2))
@@ -196,9 +208,9 @@ def _run_subset(case):
         if npx == tot:
             flags["all_pixels_is_permutation"] = bool(sorted(int(v) for v in sel) == list(range(tot)))
         # without a seed: draws from numpy's global stream (different calls differ unless the stream is reset)
-        np.random.seed(sd + 1)
+        np.random.seed((int(sd) + 1) % 2 ** 32)
         a = make_subset_data(im, pixels=npx, return_selection=True)[1]
-        np.random.seed(sd + 1)
+        np.random.seed((int(sd) + 1) % 2 ** 32)
         b = make_subset_data(im, pixels=npx, return_selection=True)[1]
         flags["global_stream_reproducible@%d" % npx] = bool(np.array_equal(a, b))
     flags["pixels_none_returns_data"] = bool(make_subset_data(im) is im)
